@@ -272,6 +272,10 @@ class KVApp(object):
                 # a SUCCESS/DISCARDED callback runs inside the apply loop, before raftLastApplied is
                 # advanced: the position being applied is raftLastApplied + 1
                 w.step_callbacks.append((tag, res, err, idx, (n.raftLastApplied + 1) if n is not None else None))
+                if w.cfg.get('cb_raise') and tag % 5 == 2:
+                    # an application callback with a bug of its own: it raises after it was called
+                    w.probe('callback_raised')
+                    raise RuntimeError('callback of command %d raises' % tag)
         if world.oracle is not None:
             world.oracle.on_submit(tag, host, meth)
         try:
